@@ -781,3 +781,7 @@ package io
 //@   requires valdec.t != nil
 //@   stable dec.head, dec.tail, dec.buf, dec.reader, dec.buf[*]
 //@   modifies ghost.*
+//@   loop 1 invariant [window] 0 <= dec.head && dec.head <= dec.tail && dec.tail <= len(dec.buf) && (dec.reader != nil ==> (dec.buf == nil || len(dec.buf) > 0) && ghost.rpos[ival(dec.reader)] >= dec.tail)
+//@   loop 1 invariant [coupling] dec.reader != nil ==> forall(j, off(dec.buf) + dec.head, off(dec.buf) + dec.tail, mem(dec.buf, j) == ghost.rstream[ival(dec.reader)][ghost.rpos[ival(dec.reader)] - dec.tail - off(dec.buf) + j])
+//@   loop 2 invariant [window] 0 <= dec.head && dec.head <= dec.tail && dec.tail <= len(dec.buf) && (dec.reader != nil ==> (dec.buf == nil || len(dec.buf) > 0) && ghost.rpos[ival(dec.reader)] >= dec.tail)
+//@   loop 2 invariant [coupling] dec.reader != nil ==> forall(j, off(dec.buf) + dec.head, off(dec.buf) + dec.tail, mem(dec.buf, j) == ghost.rstream[ival(dec.reader)][ghost.rpos[ival(dec.reader)] - dec.tail - off(dec.buf) + j])
